@@ -91,7 +91,9 @@ Definition dPG : dec (pgobj * Z) :=
 Definition dPC : dec pcobj :=
   let* i := dPos in let* v := dZ in let* g := dBool in ret (mkPC i v g).
 
-Inductive op := OEv (e : event) | OSnap | OPG (g : pgobj) (cls : Z) | OPrio (pc : pcobj) | OPrioDel (id : positive).
+Inductive op := OEv (e : event) | OSnap | OPG (g : pgobj) (cls : Z) | OPrio (pc : pcobj) | OPrioDel (id : positive)
+  | OQueue (q : positive) (w st : Z)   (* a Queue version: spec.weight, status.state (1 Open 2 Closed 3 Closing 0 other) *)
+  | OStatus (j : positive).            (* the cycle's UpdateJobStatus for job j: writes nothing the model holds *)
 
 (* outcome of the API side of a bind: 1 = bound; 0 = Binder.Bind fails; 2 = a pre-binder fails;
    3 = a pre-binder fails and the pod status write that follows fails too; 4 = Binder.Bind fails and
@@ -113,7 +115,8 @@ Definition dOp : dec op :=
   | 15 => let* pc := dPC in ret (OPrio pc)
   | 16 => let* i := dPos in ret (OPrioDel i)
   | 6 => let* i := dPos in ret (OEv (EPGDel i))
-  | 7 => let* q := dPos in ret (OEv (EQueue q))
+  | 7 => let* q := dPos in let* w := dZ in let* st := dZ in ret (OQueue q w st)
+  | 17 => let* j := dPos in ret (OStatus j)
   | 8 => let* q := dPos in ret (OEv (EQueueDel q))
   | 9 => ret (OEv EDrainCleanup)
   | 10 => ret (OEv EDrainResync)
@@ -206,13 +209,25 @@ Definition step_code (eps : Z) (c : cache) (e : event) : Z :=
 Definition ePrios (c : cache) (s : pstate) : list Z :=
   [-115] ++ eList (fun kv : positive * cjob => [Zpos (fst kv); job_priority s (fst kv)])
                   (sort_kv (map_to_list (filter (fun kv => in_snapshot c (snd kv) = true) (c_jobs c)))).
-Definition eCacheP (c : cache) (s : pstate) : list Z := eCache c ++ ePrios c s.
+(* what the cache holds of every Queue object (QueueInfo.Weight, Queue.Status.State): the
+   latest delivered version, whatever changed in it *)
+Definition qinfo := gmap positive (Z * Z).
+Definition eQueuesInfo (qi : qinfo) : list Z :=
+  [-116] ++ eList (fun kv : positive * (Z * Z) => [Zpos (fst kv); fst (snd kv); snd (snd kv)]) (sort_kv (map_to_list qi)).
+Definition eCacheP (c : cache) (s : pstate) (qi : qinfo) : list Z := eCache c ++ ePrios c s ++ eQueuesInfo qi.
 
-Definition dCacheP : dec (cache * list (positive * Z)) :=
-  let* c := dCache in let* _ := tag (-115) in let* ps := dList (dPair dPos dZ) in ret (c, ps).
+Definition dCacheP : dec (cache * (list (positive * Z) * list (positive * (Z * Z)))) :=
+  let* c := dCache in let* _ := tag (-115) in let* ps := dList (dPair dPos dZ) in
+  let* _ := tag (-116) in let* qs := dList (dPair dPos (dPair dZ dZ)) in ret (c, (ps, qs)).
 
 Definition event_of (o : op) : option event :=
-  match o with OEv e => Some e | OPG g _ => Some (EPG g) | _ => None end.
+  match o with OEv e => Some e | OPG g _ => Some (EPG g) | OQueue q _ _ => Some (EQueue q) | _ => None end.
+Definition qinfo_of (qi : qinfo) (o : op) : qinfo :=
+  match o with
+  | OQueue q w st => <[q := (w, st)]> qi
+  | OEv (EQueueDel q) => delete q qi
+  | _ => qi
+  end.
 Definition pevents_of (o : op) : list pevent :=
   match o with
   | OPG g cls => [PPodGroup (g_id g) cls]
@@ -222,17 +237,18 @@ Definition pevents_of (o : op) : list pevent :=
   | _ => []
   end.
 
-Fixpoint run_dump (eps : Z) (c : cache) (s : pstate) (ops : list op) : list Z :=
+Fixpoint run_dump (eps : Z) (c : cache) (s : pstate) (qi : qinfo) (ops : list op) : list Z :=
   match ops with
   | [] => []
-  | OSnap :: r => [-104] ++ eCacheP c s ++ [-102] ++ eSnap eps c (take_snapshot eps c) ++
-                  [-103] ++ eCacheP c s ++ [-105; 1] ++ run_dump eps c s r
+  | OSnap :: r => [-104] ++ eCacheP c s qi ++ [-102] ++ eSnap eps c (take_snapshot eps c) ++
+                  [-103] ++ eCacheP c s qi ++ [-105; 1] ++ run_dump eps c s qi r
   | o :: r =>
     let s' := fold_left phandle (pevents_of o) s in
+    let qi' := qinfo_of qi o in
     match event_of o with
     | Some e => let c' := handle eps c e in
-                [-101; step_code eps c e] ++ eCacheP c' s' ++ run_dump eps c' s' r
-    | None => [-101; 0] ++ eCacheP c s' ++ run_dump eps c s' r
+                [-101; step_code eps c e] ++ eCacheP c' s' qi' ++ run_dump eps c' s' qi' r
+    | None => [-101; 0] ++ eCacheP c s' qi' ++ run_dump eps c s' qi' r
     end
   end.
 
@@ -253,10 +269,10 @@ Definition law_snapshot_hz (c : cache) (s : snapshot) (hz : gset positive) : boo
 Definition entry (sel : Z) (toks : list Z) : list Z :=
   match sel with
   | 1 => match run_dec dCase toks with
-         | Some (e, ops) => [-100] ++ run_dump e empty_cache empty_ps ops
+         | Some (e, ops) => [-100] ++ run_dump e empty_cache empty_ps ∅ ops
          | None => bad_input end
   | 2 => match run_dec dCase toks with
-         | Some (e, ops) => [-100] ++ eCacheP (build e (final_objects (events_of ops))) (build_ps ops)
+         | Some (e, ops) => [-100] ++ eCacheP (build e (final_objects (events_of ops))) (build_ps ops) (fold_left qinfo_of ops ∅)
          | None => bad_input end
   | 101 => match run_dec dCacheP toks with
            | Some (c, _) => eBool (law_inv c)
